@@ -1,6 +1,7 @@
 package mc
 
 import (
+	"encoding/json"
 	"fmt"
 	"hash/fnv"
 	"os"
@@ -278,6 +279,9 @@ func Explore[W any](sc *Scenario[W], deadline time.Time) *Result {
 		Current.History = nil // rendered lazily by the watchdog from the fields below
 		currentOps, currentExtra, currentSeed = ops, extra, seed
 		atomic.AddInt64(&Current.Tick, 1)
+		if journal != nil {
+			writeJournal(sc.Name, seeds[seed].Name, names(seed, ops, extra))
+		}
 		defer func() {
 			if r := recover(); r != nil {
 				stack := string(debug.Stack())
@@ -410,6 +414,34 @@ func Explore[W any](sc *Scenario[W], deadline time.Time) *Result {
 	res.WallS = time.Since(start).Seconds()
 	runtime.GC()
 	return res
+}
+
+// journal: when a worker died without a verdict (a crash the runtime does not
+// let the harness recover from: stack overflow, fatal error, exit), the driver
+// runs the shard once more with VERIF_JOURNAL set; the history about to be
+// executed is then written over the start of that file before every transition,
+// so that the transition in flight at the time of death can be named.
+var journal *os.File
+
+const journalRecord = 8192
+
+func init() {
+	if p := os.Getenv("VERIF_JOURNAL"); p != "" {
+		journal, _ = os.OpenFile(p, os.O_CREATE|os.O_WRONLY|os.O_TRUNC, 0o644)
+	}
+}
+
+func writeJournal(scenario, seed string, history []string) {
+	b, _ := json.Marshal(StuckHistory{Kind: "no-crash", Scenario: scenario, Seed: seed, History: history})
+	rec := make([]byte, journalRecord)
+	for i := range rec {
+		rec[i] = ' '
+	}
+	if len(b) < journalRecord-1 {
+		copy(rec, b)
+		rec[journalRecord-1] = '\n'
+		journal.WriteAt(rec, 0)
+	}
 }
 
 func inInts(xs []int, x int) bool {
